@@ -493,7 +493,11 @@ func Describe(obj *object.Object) []string {
 	m := obj.ProtoMessage()
 	var l []string
 	h := m.GetHeader()
-	l = append(l, "type:"+object.Type(h.GetObjectType()).String())
+	if ty := object.Type(h.GetObjectType()); ty >= 0 && ty <= object.TypeLink {
+		l = append(l, "type:"+ty.String())
+	} else {
+		l = append(l, "type:unknown")
+	}
 	if m.ObjectId != nil {
 		l = append(l, "has-id")
 	} else {
